@@ -175,9 +175,11 @@ def _cases(arg):
                 "measured": lambda q, a, b: [ops.MeasureHomodyne(0.1) | q[0], ops.Xgate(q[0].par) | q[1]],
                 "measured_expr": lambda q, a, b: [ops.MeasureHomodyne(0.1) | q[0], ops.Zgate(2 * q[0].par + 0.25) | q[1], ops.Rgate(q[0].par * a) | q[1]],
                 "measured_dagger": lambda q, a, b: [ops.MeasureX | q[0], ops.Xgate(q[0].par).H | q[1]],
+                "measured_high": lambda q, a, b: [ops.MeasureHomodyne(0.1) | q[11], ops.MeasureHomodyne(0.3) | q[5], ops.Xgate(q[11].par) | q[3],
+                                                  ops.Zgate(q[5].par) | q[10]],
             }
             name = list(variants)[idx]
-            prog = sf.Program(2)
+            prog = sf.Program(12 if name.endswith("high") else 2)
             a, b = prog.params("a", "b")
             with prog.context as q:
                 r = variants[name](q, a, b)
@@ -234,7 +236,7 @@ def c14(chk):
                        "this is encode/decode fidelity at the edge of the technique (level: exploration)"]
     common.warm(fock=False)
     ncat = 62
-    jobs = [("single", i) for i in range(ncat)] + [("symbolic", i) for i in range(6)] + [("multi", i) for i in range(24 if tier == "quick" else 200)] + \
+    jobs = [("single", i) for i in range(ncat)] + [("symbolic", i) for i in range(7)] + [("multi", i) for i in range(24 if tier == "quick" else 200)] + \
            [("tdm", i) for i in range(10 if tier == "quick" else 20)]
     res = common.pmap(_cases, jobs, chunksize=2)
     cases, owners = [], []
